@@ -103,7 +103,7 @@ def main():
     tasks = []
     for target, con in sorted(w.reg.contracts.items()):
         if a.prop in con.props and not con.assumed:
-            for v in (con.variants or [None]):
+            for v in con.all_variants():
                 tasks.append((target, v, tier))
     results = []
     if tasks:
